@@ -164,7 +164,7 @@ func (r EnvoyResult) Header(name string) string {
 }
 
 // Check maps a logical request to a CheckRequest the way the repository's own tests and Envoy do
-// (lower-case header keys, path incl. query in Path).
+// (lower-case header keys, path and query in separate fields).
 func (e *Envoy) Check(method, scheme, host, pathAndQuery string, hdrs map[string]string, body string, rawBody []byte) EnvoyResult {
 	ctx, cancel := context.WithTimeout(context.Background(), 15*time.Second)
 	defer cancel()
@@ -172,8 +172,10 @@ func (e *Envoy) Check(method, scheme, host, pathAndQuery string, hdrs map[string
 	for k, v := range hdrs {
 		lower[strings.ToLower(k)] = v
 	}
+	// path and query travel in separate fields, as in the repository's own tests (recorded assumption)
+	path, query, _ := strings.Cut(pathAndQuery, "?")
 	cr, err := e.c.Check(ctx, &envoy_auth.CheckRequest{Attributes: &envoy_auth.AttributeContext{Request: &envoy_auth.AttributeContext_Request{
-		Http: &envoy_auth.AttributeContext_HttpRequest{Method: method, Scheme: scheme, Host: host, Path: pathAndQuery, Headers: lower, Body: body, RawBody: rawBody},
+		Http: &envoy_auth.AttributeContext_HttpRequest{Method: method, Scheme: scheme, Host: host, Path: path, Query: query, Headers: lower, Body: body, RawBody: rawBody},
 	}}})
 	if err != nil {
 		return EnvoyResult{RPCErr: err.Error()}
